@@ -19,6 +19,7 @@ THEOREMS = [
     "only_unheld_scheduled", "put_clears_queue", "full_node_bound", "closest_first",
     "leaves_ongoing", "leaves_when", "timed_out_holder_reported_and_dropped",
     "multi_key_in_range", "multi_key_in_range_refuted",
+    "liveness_bound", "liveness",
 ]
 IMPORTS = "Require Import V.model.Fetcher."
 RULE = ("histories of 1-60 primitive operations on one fetcher: 2-4 holders, 3-40 keys (real 256-bit XOR "
@@ -38,9 +39,10 @@ ASSUMPTIONS = [
     "them as sha256(node) xor sha256(key)); collision-freedom of SHA-256 is a reading, not an axiom",
     "hash-map iteration order is not controlled: the acceptor admits every order, the transcription "
     "`schedule_code iter` is proved to be accepted for every iteration order `iter`",
-    "liveness is proved under explicit fairness premises (no divergent versions in the universe, responsive "
-    "holders: nothing in flight expires at a round, fetches of a round are stored before the next one, the queued "
-    "entry has not passed PENDING_TIMEOUT); bound = number of unheld universe keys + 1 rounds",
+    "liveness is proved under explicit fairness premises (finite universe with one version per key, responsive "
+    "holders: nothing in flight has expired at a round, fetches in flight after a round are stored before the next "
+    "one, the queued entry has not passed PENDING_TIMEOUT, the record stays in range); bound = "
+    "ceil(unheld universe keys / MAX_PARALLEL_FETCH) rounds",
 ]
 
 U256 = 2 ** 256
@@ -238,7 +240,7 @@ def liveness_script(rng, consts):
     ops = []
     if rng.random() < 0.5:
         ops.append({"op": "range", "r": str(w.dist[target])})          # exactly in range
-    rounds = nk + 1
+    rounds = -(-nk // consts[0]) + 2
     for r in range(rounds):
         if rng.random() < 0.5:
             ops.append({"op": "add", "h": 1, "inc": [[i, 0] for i in rng.sample(range(nk), max(2, nk // 2))],
@@ -248,7 +250,7 @@ def liveness_script(rng, consts):
         ops += age_op(w, rng.choice([1000, 5000, 30000]))
         if len(ops) > 70:
             break
-    return w.case(ops, "liveness", live={"k": target, "t": 0, "h": 0, "bound": nk + 1})
+    return w.case(ops, "liveness", live={"k": target, "t": 0, "h": 0, "bound": -(-nk // consts[0]) + 1})
 
 
 def exhaustive_cases(rng, consts, length, limit):
